@@ -150,6 +150,7 @@ Kinds == [
   callable_static   |-> KD,
   callable_classm   |-> [KD EXCEPT !.bind = "cls"],
   class_meta        |-> [KD EXCEPT !.bind = "self"],
+  callable_partialsub |-> [KD EXCEPT !.bind = "self"],   \* instance of a functools.partial SUBCLASS that overrides __call__
   method_nt_sub     |-> [KD EXCEPT !.bind = "self"],
   method_overridden |-> [KD EXCEPT !.bind = "self"],
   (* ---- allow-listed by a rule other than the module of their code ------- *)
@@ -574,7 +575,7 @@ WarnOnlyOnFailure == AtDone /\ out.warn > 0 => out.rule = "fallback" \/ K.unsup 
 NonRecursiveNeverConverts == AtDone /\ OptNow = "s_r0" => out.inv.mode # "converted"
 
 (* partial merging equals Python's own partial call semantics - at every step *)
-PartialSemantics == pc \notin {"end"} => Through(Chain, lay, pos, kw) = PyDirect(d)
+PartialSemantics == pc = "cache" => Through(Chain, lay, pos, kw) = PyDirect(d)   \* pos, kw, lay change only on entering "cache"
 BindingAtCall == AtDone /\ out.ninv = 1 => out.inv.pos = PyDirect(d)[1] /\ out.inv.kw = KwSeq(PyDirect(d)[2])
 (* the call site wins over stored keywords, inner stored positionals come first *)
 CallSiteWins == AtDone /\ out.ninv = 1 =>
